@@ -22,7 +22,7 @@ int main(int argc, char** argv)
 {
 	Ctx c = parseArgs(argc, argv);
 	Rng rng(c.seed * 0x1000 + 5);
-	Budget b = c.thorough ? Budget{ 60, 200, 260 } : Budget{ 8, 150, 200 };
+	Budget b = c.thorough ? Budget{ 1000, 220, 300 } : Budget{ 40, 200, 260 };
 #if !defined(C05_PART) || C05_PART == 1
 	runConfig<ArrayAdapter<Arr<0, std::string, MM00>>>(c, rng, "a0_string", "Allocate-only manager", b);
 	runConfig<ArrayAdapter<Arr<1, std::string, MM00>>>(c, rng, "a1_string", "Allocate-only manager", b);
